@@ -261,7 +261,7 @@ impl Monitor for C03 {
         vec![("histories", tier.pick(80_000, 1_600_000)), ("long", tier.pick(200, 2000)), ("block_slots", tier.pick(4_000, 80_000)), ("block_defaults", tier.pick(4_000, 80_000)), ("learn_calls", tier.pick(3_000, 60_000))]
     }
     fn rule(&self) -> &'static str {
-        "case = one optimizer instance (kind x {decay, momentum/dampening, centred} flags enumerated by the case index; lr log-uniform in [1e-4,1], betas/alpha/momentum from valid grids, eps in [1e-10,1e-3]) owning 2..10 parameter slots laid out over 1..3 layers x 1..3 filters x {weight,bias} with ranks 1..3; three slots carry the same numbers as vector / matrix / 3-D tensor (rank probe; 4..12 elements, in every fourth block of cases 33..129 rows x 1..3 columns); every slot has its own gradient family (normal, constant, sparse, sign-flipping, tiny 1e-12..1e-6, large 1e3..1e6, mixture) and step-number sequence (constant 1, constant k, +1 per step, jumping; k in 2..9 or, in every sixth case, 100 / 1000 / 100000); slots are updated in a random interleaving for 1..400 steps (long: 2000). After EVERY update the slot's values are compared with the documented equations evaluated per element in f64 (tolerance 1e-4 x distance travelled + 1e-7 + 8 x drift of the same equations evaluated in f32), must be finite, and the three rank-probe slots must agree. Distinct = distinct (optimizer configuration, layout) descriptors; for Adam / AdamW every sixteenth case gives some of learning rate / beta1 / beta2 / epsilon as 0 (\"use the default\"): the trajectory must then follow the documented equations with the documented defaults 0.001 / 0.9 / 0.999 / 1e-8 (the only optimizers whose documented defaults and validate() agree). block_slots: the optimizer slots of the unrolled copies of a feedback block (allocated by Feedback::copy_optimizer, addressed by Feedback::update) are observed through training: chain networks with one block (1..4 loops, mean coupling), all five optimizers, learn() against a twin in which every unrolled copy takes one step of the documented rule with its OWN state on the sum of its own per-sample gradients before the copies are averaged (C04's block twin; tolerance as there). State shared or mixed between copies shows as a weight difference. block_defaults: a chain network and the same network with one layer wrapped into a one-loop feedback block are trained with an optimizer some of whose hyper-parameters (learning rate, momentum / beta1, beta2 / alpha, epsilon) are given as 0, the value Optimizer::validate replaces by a default: whatever the defaults are, block and top-level layers must have been given the same ones - final weights and epoch losses agree (1e-3 relative to the weight change). learn_calls: two consecutive learn() calls on one network (all five optimizers, random networks and data; the second call with another batch size and a prefix of the samples) against C04's twin trainer, which carries weights AND optimizer state from the first call into the second while the step number restarts at 1: the weights after each call must agree (tolerance as in C04)."
+        "case = one optimizer instance (kind x {decay, momentum/dampening, centred} flags enumerated by the case index; lr log-uniform in [1e-4,1], betas/alpha/momentum from valid grids, eps in [1e-10,1e-3]) owning 2..10 parameter slots laid out over 1..3 layers x 1..3 filters x {weight,bias} with ranks 1..3; three slots carry the same numbers as vector / matrix / 3-D tensor (rank probe; 4..12 elements, in every fourth block of cases 33..129 rows x 1..3 columns); every slot has its own gradient family (normal, constant, sparse, sign-flipping, tiny 1e-12..1e-6, large 1e3..1e6, mixture) and step-number sequence (constant 1, constant k, +1 per step, jumping; k in 2..9 or, in every sixth case, 100 / 1000 / 100000); slots are updated in a random interleaving for 1..400 steps (long: 2000). After EVERY update the slot's values are compared with the documented equations evaluated per element in f64 (tolerance 1e-4 x distance travelled + 1e-7 + 8 x drift of the same equations evaluated in f32), must be finite, and the three rank-probe slots must agree. Distinct = distinct (optimizer configuration, layout) descriptors; for Adam / AdamW every sixteenth case gives some of learning rate / beta1 / beta2 / epsilon as 0 (\"use the default\"): the trajectory must then follow the documented equations with the documented defaults 0.001 / 0.9 / 0.999 / 1e-8 (the only optimizers whose documented defaults and validate() agree). block_slots: the optimizer slots of the unrolled copies of a feedback block (allocated by Feedback::copy_optimizer, addressed by Feedback::update) are observed through training: chain networks with one block (1..4 loops, mean coupling), all five optimizers, learn() against a twin in which every unrolled copy takes one step of the documented rule with its OWN state on the sum of its own per-sample gradients before the copies are averaged (C04's block twin; tolerance as there). State shared or mixed between copies shows as a weight difference. block_defaults: a chain network and the same network with one layer wrapped into a one-loop feedback block are trained with an optimizer some of whose hyper-parameters (learning rate, momentum / beta1, beta2 / alpha, epsilon) are given as 0, the value Optimizer::validate replaces by a default: whatever the defaults are, block and top-level layers must have been given the same ones - final weights and epoch losses agree (1e-3 relative to the weight change). learn_calls: two consecutive learn() calls on one network (all five optimizers, random networks and data; the second call with another batch size and a prefix of the samples) against C04's twin trainer, which carries weights AND optimizer state from the first call into the second while the step number restarts at 1 (in every second case a newly created optimizer of the same kind, half the learning rate, is installed between the calls: the twin then starts from fresh state - nothing of the replaced optimizer may survive): the weights after each call must agree (tolerance as in C04)."
     }
     fn assumptions(&self) -> Vec<&'static str> {
         vec![
